@@ -16,5 +16,5 @@ for f in glob.glob('/verif/out/replays/%s-*.json' % pid):
 for k, v in c.most_common():
     print(v, k)
     for w in ex[k][:n]:
-        print("    opts:", w.get('opts'), "| detail:", str(w.get('detail', w.get('expected', '')))[:200])
+        print("    opts:", w.get('opts'), "| where:", w.get('where'), "| detail:", str(w.get('detail', w.get('expected', '')))[:200])
         print("    text:", " ".join(str(w.get('text', '')).split())[:int(sys.argv[3]) if len(sys.argv) > 3 else 400])
